@@ -3,6 +3,7 @@ import LinOp.C12.ProofsWrap
 import LinOp.C12.Algebra
 import LinOp.C12.AlgebraDerive
 import LinOp.Generated.C12Table
+import LinOp.Generated.C12Settings
 /-!
 C12 — cached results are transparent: answers do not depend on query history.  Property theorems only.
 
@@ -184,7 +185,7 @@ specification (the wrapper value is tagged valid only if every sub-answer it was
 sub-operator, with the orientation / method the hook asked for), for a query on a held sub-operator by that operator's. -/
 theorem wrap_cache_inv (k : WKind) (σ : Settings) (n m : Nat) (q : WQuery) (w : WSt) (hw : WInv m w) :
     WInv m (wStep k σ n m q w).1 ∧ wAnswerOk m w q (wStep k σ n m q w).2 :=
-  wRun_ok (hooksOk_kind k σ m) σ n q w hw
+  wRun_ok (hooksOk_kind k σ n m) σ n q w hw
 
 /-- The same for ANY class whose hooks meet the `HooksOk` contract (each hook keeps all caches valid and returns a valid
 factor of the wrapper's matrix): the base-class cache discipline is transparent over every such override set. -/
@@ -245,6 +246,154 @@ theorem wrap_side_write_location :
     let c := (wStep .constMul σ 4 1 (.self (.rootInv .noargs)) (wFresh [sub])).1
     r.self.cache.map (·.1) = [rootInvKey .noargs] ∧ r.subs.map (fun o => o.st.cache.map (·.1)) = [[rootKey .noargs]] ∧
     c.self.cache.map (·.1) = [rootKey .noargs, rootInvKey .noargs] ∧ c.subs.map (fun o => o.st.cache.map (·.1)) = [[]] := by
+  decide
+
+
+/-! ### extension session 5: KroneckerProductLinearOperator (n-ary) in the wrapper state machine; settings at query time
+
+`WKind.kron` is part of `WKind`, so `wrap_cache_inv`, `wrap_runHist_inv`, `wrap_history_transparent` and
+`wrap_history_transparent_exact` above quantify over it as well (any number of factors of any modelled single-object class, any
+sizes, any interleaving of wrapper / factor queries — including `WQuery.logdet`, which for Kronecker is NOT
+`inv_quad_logdet(rhs, logdet=True)` —, settings changing arbitrarily between steps). -/
+
+/-- **The Kronecker overrides meet the hook contract** (all sizes, any factor list, all settings): factor-wise `_cholesky(upper)` /
+`_svd` / `_symeig`, base-class Lanczos hooks on the wrapper (side write into the wrapper's cache), the memoised
+`root_decomposition` / `root_inv_decomposition` overrides — which either re-enter the memoised base method under a second key
+(at or below `max_cholesky_size`) or assemble the answer from `lt.root_decomposition(method=method)` of every factor —,
+`diagonalization` forced to `symeig`, `_logdet` through `diagonalization()`.  Each keeps the wrapper's and every factor's cache
+valid and returns a valid factor of the wrapper's matrix (the structured root is tagged valid only if EVERY factor's answer was
+acceptable for that factor). -/
+theorem kron_hooks_ok (σ : Settings) (n m : Nat) : HooksOk (Hooks.kron σ n m) m := hooksOk_kron σ n m
+
+/-- **One step on a Kronecker product** (corollary of the generic theorem, stated for the class): caches of the product and of all
+factors stay valid, the answer is acceptable — also for `logdet()`. -/
+theorem kron_cache_inv (σ : Settings) (n m : Nat) (q : WQuery) (w : WSt) (hw : WInv m w) :
+    WInv m (wStep .kron σ n m q w).1 ∧ wAnswerOk m w q (wStep .kron σ n m q w).2 :=
+  wrap_cache_inv .kron σ n m q w hw
+
+/-- memoize `g` wrapper on the wrapper's cache: after the call the entry under `k` IS the returned value (hit or miss). -/
+theorem wCached_get (k : Key) (f : WSt → WSt × Val) (w : WSt) :
+    (wCached k f w).1.self.cache.get k = some (wCached k f w).2 := by
+  unfold wCached
+  cases hg : w.self.cache.get k with
+  | some v => simp [hg]
+  | none => simp only [WSt.putSelf]; exact (cache_map_laws _ k k _).1
+
+/-- memoize: a second call under the same key is a hit that returns the stored entry and changes nothing — whatever the body `g` of the
+second call would have computed. -/
+theorem wCached_twice (k : Key) (f g : WSt → WSt × Val) (w : WSt) : wCached k g (wCached k f w).1 = wCached k f w := by
+  have hit : ∀ (w' : WSt) (v : Val), w'.self.cache.get k = some v → wCached k g w' = (w', v) := by
+    intro w' v h
+    simp [wCached, h]
+  rw [hit _ _ (wCached_get k f w)]
+
+/-- **A memoised factorization is keyed by its arguments only — never by the settings in force** (C10_8-type question): for ANY two
+hook sets / settings / sizes (the class overrides are functions of the settings: Kronecker branches on `max_cholesky_size`, the base
+class chooses the method from it), a second `root_decomposition` / `root_inv_decomposition` / `diagonalization` call with the same
+arguments on the same object returns exactly the entry the first call left, without touching any cache.  Together with
+`wrap_cache_inv_generic` (that entry is a valid answer whatever the settings were when it was computed) this is why serving it under
+different settings is sound. -/
+theorem cached_served_across_settings (H₁ H₂ : Hooks) (σ₁ σ₂ : Settings) (n m : Nat) (c : Call) (w : WSt) :
+    wRootDecomp H₂ σ₂ n m c (wRootDecomp H₁ σ₁ n m c w).1 = wRootDecomp H₁ σ₁ n m c w ∧
+    wRootInvDecomp H₂ σ₂ n m c (wRootInvDecomp H₁ σ₁ n m c w).1 = wRootInvDecomp H₁ σ₁ n m c w ∧
+    (H₁.diagzRebind c = H₂.diagzRebind c →
+      wDiagonalization H₂ σ₂ n m c (wDiagonalization H₁ σ₁ n m c w).1 = wDiagonalization H₁ σ₁ n m c w) := by
+  refine ⟨?_, ?_, ?_⟩
+  · unfold wRootDecomp; exact wCached_twice _ _ _ _
+  · unfold wRootInvDecomp; exact wCached_twice _ _ _ _
+  · intro hc
+    unfold wDiagonalization
+    rw [← hc]
+    exact wCached_twice _ _ _ _
+
+/-- **Two keys per call, one entry** (`KroneckerProductLinearOperator.root_decomposition` at or below `max_cholesky_size`, any factor
+list, any size, any calling convention `c`): the override is memoised under the key of the call as made AND re-enters the memoised
+base method with `method=<bound method>` by keyword; after a miss BOTH keys hold the answer that was returned, so a later call in
+either convention is served the same entry (no second, possibly different factorization of the same operator is computed). -/
+theorem kron_two_keys_one_entry (σ : Settings) (n m : Nat) (c : Call) (w : WSt) (hn : n ≤ σ.mcs) :
+    let r := wRootDecomp (Hooks.kron σ n m) σ n m c w
+    r.1.self.cache.get (rootKey c) = some r.2 ∧
+    (w.self.cache.get (rootKey c) = none → r.1.self.cache.get (rootKey (kwMethod c)) = some r.2) := by
+  refine ⟨wCached_get _ _ _, ?_⟩
+  intro hmiss
+  have hin := wCached_get (rootKey (kwMethod c)) (wRootCompute (Hooks.kron σ n m) σ n m (kwMethod c)) w
+  have e : wRootDecomp (Hooks.kron σ n m) σ n m c w =
+      (((wCached (rootKey (kwMethod c)) (wRootCompute (Hooks.kron σ n m) σ n m (kwMethod c)) w).1.putSelf (rootKey c)
+        (wCached (rootKey (kwMethod c)) (wRootCompute (Hooks.kron σ n m) σ n m (kwMethod c)) w).2),
+       (wCached (rootKey (kwMethod c)) (wRootCompute (Hooks.kron σ n m) σ n m (kwMethod c)) w).2) := by
+    simp [wRootDecomp, wCached, hmiss, Hooks.kron, hn]
+  rw [e]
+  simp only [WSt.putSelf]
+  by_cases hk : rootKey (kwMethod c) = rootKey c
+  · rw [hk]; exact (cache_map_laws _ _ (rootKey c) _).1
+  · rw [(cache_map_laws _ (rootKey c) (rootKey (kwMethod c)) _).2.1 hk]; exact hin
+
+/-- **The AddedDiagLinearOperator overrides meet the hook contract** (`_linear_op + _diag_tensor`; general and constant diagonal part,
+all settings, any sub-operator profiles): memoised `to_dense` whose computation densifies BOTH parts (a Diag part memoises its own
+`to_dense`), base-class `_cholesky` / Lanczos hooks on the sum, `_symeig` / `_svd` through `self.to_dense()` for a general diagonal and
+delegated to the FIRST part (`self._linear_op._symeig`, `self._linear_op.svd()`) for a constant diagonal.  Hence every `wrap_*` theorem above
+covers `WKind.addedDiag` / `WKind.addedDiagConst` (they are members of `WKind`).  The ad-hoc preconditioner attributes are not part of
+`_memoize_cache` and are not modelled. -/
+theorem addedDiag_hooks_ok (σ : Settings) (m : Nat) (constDiag : Bool) : HooksOk (Hooks.addedDiag σ m constDiag) m :=
+  hooksOk_addedDiag σ m constDiag
+
+/-- Code as it is (tied by the exact key-set correspondence on `AddedDiag(Dense, Diag)` / `AddedDiag(Dense, ConstantDiag)`): `svd()` on a fresh
+operator densifies the sum and its Diag part for a general diagonal, and asks only the first part for its SVD for a constant diagonal. -/
+theorem addedDiag_key_sets :
+    let subs : List SubObj := [⟨Profile.base, 5, 2, ⟨[], 0, []⟩⟩, ⟨Profile.diag, 5, 3, ⟨[], 0, []⟩⟩]
+    let df : Settings := ⟨800, true, true, true⟩
+    let g := (wStep .addedDiag df 5 1 (.self .svd) (wFresh subs)).1
+    let c := (wStep .addedDiagConst df 5 1 (.self .svd) (wFresh subs)).1
+    g.self.cache.map (·.1) = [denseKey, svdKey] ∧ g.subs.map (fun o => o.st.cache.map (·.1)) = [[], [denseKey]] ∧
+    c.self.cache.map (·.1) = [svdKey] ∧ c.subs.map (fun o => o.st.cache.map (·.1)) = [[svdKey], []] := by
+  decide
+
+/-- Code as it is (tied by the exact key-set correspondence on `KroneckerProductLinearOperator(Dense, Dense)`): `root_decomposition()`
+on a fresh 2-factor product leaves TWO `root_decomposition` keys on the product at or below `max_cholesky_size` (the override's and the
+re-entered base method's) plus the factor-wise Cholesky entries; above it one key on the product and `root_decomposition||method=None`
+on every factor; `logdet()` leaves `diagonalization||method='symeig'` only. -/
+theorem kron_key_sets :
+    let subs : List SubObj := [⟨Profile.base, 2, 2, ⟨[], 0, []⟩⟩, ⟨Profile.base, 3, 3, ⟨[], 0, []⟩⟩]
+    let df : Settings := ⟨800, true, true, true⟩
+    let sm : Settings := ⟨1, true, true, true⟩
+    let a := (wStep .kron df 6 1 (.self (.root .noargs)) (wFresh subs)).1
+    let b := (wStep .kron sm 6 1 (.self (.root .noargs)) (wFresh subs)).1
+    let l := (wStep .kron df 6 1 .logdet (wFresh subs)).1
+    a.self.cache.map (·.1) = [.full "cholesky" [] [("upper", .bool false)], rootKey .kwNone, rootKey .noargs] ∧
+    a.subs.map (fun o => o.st.cache.map (·.1)) = [[.full "cholesky" [] [("upper", .bool false)]], [.full "cholesky" [] [("upper", .bool false)]]] ∧
+    b.self.cache.map (·.1) = [rootKey .noargs] ∧
+    b.subs.map (fun o => o.st.cache.map (·.1)) = [[rootKey .kwNone], [rootKey .kwNone]] ∧
+    l.self.cache.map (·.1) = [diagzKey ⟨[], [("method", .str "symeig")]⟩] := by
+  decide
+
+/-- **Every memoised method whose computation reads a global setting** (regenerated from /repo on every run by
+`harness/extract/c12_settings.py`: `settings.<chain>` read directly in the body of a `@cached` function, or in a non-memoised
+`self.<helper>()` it calls) is one of the reviewed, MODELLED ones: the Kronecker root overrides (`max_cholesky_size` -> `Hooks.kron`,
+branch `n ≤ σ.mcs`), and the base-class `diagonalization` / `root_decomposition` / `root_inv_decomposition` (`_choose_root_method`:
+`chooseRootMethod`; `max_root_decomposition_size`, the eigh dtype and the `verbose_linalg` logger change the numerical content /
+logging only, never the kind or validity of the entry).  A new setting-dependent memoised computation must be modelled first. -/
+theorem gen_setting_reads_reviewed :
+    LinOp.Generated.C12.settingReads =
+      [⟨"KroneckerProductLinearOperator", "root_decomposition", "root_decomposition", ["max_cholesky_size"], []⟩,
+       ⟨"KroneckerProductLinearOperator", "root_inv_decomposition", "root_inv_decomposition", ["max_cholesky_size"], []⟩,
+       ⟨"LinearOperator", "_svd", "svd", [], ["_symeig:_linalg_dtype_symeig", "_symeig:verbose_linalg.logger.debug"]⟩,
+       ⟨"LinearOperator", "diagonalization", "diagonalization", ["max_cholesky_size"],
+        ["_root_decomposition_size:max_root_decomposition_size", "_symeig:_linalg_dtype_symeig", "_symeig:verbose_linalg.logger.debug"]⟩,
+       ⟨"LinearOperator", "root_decomposition", "root_decomposition", [],
+        ["_choose_root_method:fast_computations.covar_root_decomposition", "_choose_root_method:max_cholesky_size",
+         "_root_decomposition_size:max_root_decomposition_size", "_symeig:_linalg_dtype_symeig", "_symeig:verbose_linalg.logger.debug"]⟩,
+       ⟨"LinearOperator", "root_inv_decomposition", "root_inv_decomposition", [],
+        ["_choose_root_method:fast_computations.covar_root_decomposition", "_choose_root_method:max_cholesky_size",
+         "_symeig:_linalg_dtype_symeig", "_symeig:verbose_linalg.logger.debug"]⟩] := by
+  decide +kernel
+
+/-- Satisfiability: a history on a 3-factor Kronecker product that mixes the structured branch, a settings flip and a factor handle. -/
+example :
+    let subs : List SubObj := [⟨Profile.base, 2, 2, ⟨[], 0, []⟩⟩, ⟨Profile.base, 2, 3, ⟨[], 0, []⟩⟩, ⟨Profile.sum, 3, 4, ⟨[], 0, []⟩⟩]
+    let h : List (Settings × WQuery) := [(⟨1, true, true, true⟩, .self (.rootInv .noargs)), (⟨800, true, true, true⟩, .sub 3 (.root .noargs)),
+      (⟨800, true, true, true⟩, .logdet)]
+    answerOk 1 (.root .noargs)
+      (wStep .kron ⟨800, true, true, true⟩ 12 1 (.self (.root .noargs)) (wRunHist .kron 12 1 h (wFresh subs))).2 := by
   decide
 
 /-! ### derived operators -/
